@@ -26,6 +26,24 @@ def datesStep (a : String) (cur : Option (Int × Int)) (t : TxIn) : Option (Int 
     transactions involving it, insertion date of the first such transaction). -/
 def datesOf (h : List TxIn) (a : String) : Option (Int × Int) := h.foldl (datesStep a) none
 
+/-- The store operation touches the account's row. -/
+def StoreOp.touches (o : StoreOp) (a : String) : Bool :=
+  match o with
+  | .commit t => t.involves a
+  | .saveAccountMeta a' _ _ => a' == a
+  | _ => false
+
+/-- `(first_usage, insertion_date)` after one more store operation: a commit involving the
+    account lowers / creates (`datesStep`); metadata saved on it creates it when absent, with
+    both dates = the write's date, and leaves the dates of an existing account alone. -/
+def accountEventStep (a : String) (cur : Option (Int × Int)) : StoreOp → Option (Int × Int)
+  | .commit t => datesStep a cur t
+  | .saveAccountMeta a' at_ _ =>
+    if a' = a then (match cur with | none => some (at_, at_) | some c => some c) else cur
+  | _ => cur
+
+def datesOfOps (ops : List StoreOp) (a : String) : Option (Int × Int) := ops.foldl (accountEventStep a) none
+
 def AccountRow.dates (r : AccountRow) : Int × Int := (r.firstUsage, r.insertionDate)
 
 end Ledger.Spec
